@@ -554,6 +554,13 @@ SCRIPTS: list[tuple[str, dict]] = [
                                              ("meta", 1, 0), ("att", 0, 0), ("att", 1, 0), ("meta", 0, 0),
                                              ("att", 1, 1), ("token", 0, 1)])),
 ]
+# a pseudonym with more tokens than any bounded waiting area of the token tree holds (100): whatever order the rows
+# come back in, the rebuilt pseudonym must contain and verify all of them
+_LONG = 130
+SCRIPTS.append(("long-chain", _script(tokens=[(0, -1, 4)] + [(0, i - 1, 4) for i in range(1, _LONG)],
+                                      metas=[(_LONG - 1, 1), (_LONG // 2, 1)],
+                                      ops=[("token", i, i % 2) for i in range(_LONG)] + [("meta", 0, 0), ("meta", 1, 0),
+                                                                                          ("att", 0, 0)])))
 N_QUICK_SCRIPTS = len(SCRIPTS)
 # thorough tier only
 SCRIPTS += [
@@ -582,10 +589,14 @@ def plan(root: str, nscripts: int) -> list[list]:
     items: list[list] = []
     for s, (name, case) in enumerate(SCRIPTS[:nscripts]):
         api, sql = dry_run(root, case)
+        # long scripts: every 9th crash point and the last ten of each kind
+        pick = (lambda n, total: True) if api <= 40 else (lambda n, total: n % 9 == 0 or n > total - 10)
         for n in range(2 * api + 1):       # the last one lies beyond the final event: clean exit
-            items.append([s, "api", n, api])
+            if pick(n, 2 * api):
+                items.append([s, "api", n, api])
         for n in range(1, sql + 1):
-            items.append([s, "sql", n, api])
+            if pick(n, sql):
+                items.append([s, "sql", n, api])
     return items
 
 
